@@ -7,10 +7,12 @@ single node of every role/level through the simulated air; update() must return 
 bounded virtual time, and frames shorter than a header or with a reference-invalid origin or
 destination must cause neither queue growth nor any transmission."""
 import itertools
+import os
 import struct
 
 from vlib import boot
 from vlib.harness.runner import Result, Part, exc_signature
+from vlib.harness.steps import StepBudget, StepLimit
 from vlib.ref import netaddr
 from vlib.sim.core import Sim, Mcu, MS, US, SimHorizon
 from vlib.sim.radio import Chip, Medium
@@ -65,6 +67,21 @@ def run_pred(case):
         res.fail("C15/predicate-%s-%s" % ("accepts" if got else "rejects", shape), "is_address_valid(0o%o) = %r, reference %r" % (v, got, exp))
     res.nontrivial = exp or all(1 <= x <= 5 for x in netaddr.digits(v))  # valid, or well-formed digits but too long
     return res
+
+
+ALL_STEPS = False
+STEP_LIMIT = 2_000_000  # library lines per group of update() calls; observed maximum on the unchanged tree is in the evidence
+LIBDIR = os.path.join(os.path.realpath(boot.REPO), "circuitpython_nrf24l01")
+
+
+class _NoBudget:
+    n = 0
+
+    def __enter__(self):
+        return self
+
+    def __exit__(self, *exc):
+        return False
 
 
 def make_node(L, sim, med, role, level, dhcp):
@@ -151,10 +168,13 @@ def run_frames(case):
                 and netaddr.is_valid(struct.unpack("<H", bytes.fromhex(g["hex"])[2:4])[0]) for g in grp))
             q0, n0, t0 = qlen(), len(med.log), sim.now
             guard = 0
-            while chip.rxf and guard < 8:
-                guard += 1
+            with StepBudget(STEP_LIMIT, LIBDIR) if case.get("steps", ALL_STEPS) else _NoBudget() as sb:
+                while chip.rxf and guard < 8:
+                    guard += 1
+                    node.update()
                 node.update()
-            node.update()
+            if case.get("steps", ALL_STEPS):
+                res.label("steps<1e3" if sb.n < 1000 else "steps<1e4" if sb.n < 10000 else "steps<1e5" if sb.n < 100000 else "steps>=1e5")
             dt = sim.now - t0
             if dt > 3000 * MS:
                 res.fail("C15/update-exceeds-time-bound", "%.0f ms of virtual time for one frame (type %s)" % (
@@ -177,6 +197,9 @@ def run_frames(case):
                 node.queue.dequeue()
     except SimHorizon:
         res.fail("C15/update-does-not-terminate", "virtual-time horizon reached in update()")
+    except StepLimit:
+        res.fail("C15/update-does-not-terminate/cpu-loop", "%s at level %d: update() executed more than %d library lines for %s without "
+                 "returning" % (case["role"], case["level"], STEP_LIMIT, data[:8].hex()))
     except Exception as e:  # noqa: BLE001 - the property: update() never raises
         res.fail(exc_signature("C15/update-raises", e), "%s at level %d on %r (type %s, %d bytes)" % (
             case["role"], case["level"], e, data[6] if len(data) > 6 else None, len(data)))
@@ -260,6 +283,17 @@ def _master_histories():
                         yield {"kind": "frames", "role": "master", "level": 0, "dhcp": table, "batch": batch, "frames": [req, f1, f2]}
 
 
+def _master_request_sweep():
+    """an address request reaching the master from EVERY well-formed origin address (all 780 of levels 1..4 and the
+    default address), for a new ID and for an ID that already holds a lease, under a step budget"""
+    for a in range(1, 0o10000):
+        if not netaddr.is_node_address(a):
+            continue
+        for rid, table in ((44, []), (77, DHCP), (21, [[20 + i, a | (i << (3 * netaddr.level(a)))] for i in range(1, 5)] if netaddr.level(a) < 4 else DHCP)):
+            yield {"kind": "frames", "role": "master", "level": 0, "dhcp": table, "steps": True,
+                   "frames": [{"pipe": netaddr.digits(a)[0] if a != 0o4444 else 0, "hex": struct.pack("<HHHBB", a, 0, 5, 195, rid).hex()}]}
+
+
 def _short_frames():
     for role, levels in ROLES:
         for level in levels:
@@ -334,17 +368,33 @@ def seed_inputs():
     return out
 
 
+def _steps(gen):
+    """the same cases, run under the step budget (about 2.5 times slower)"""
+    def g():
+        for c in gen():
+            if c.get("kind") == "frames":
+                c = dict(c, steps=True)
+            yield c
+    return g
+
+
+def _steps_strategy():
+    return _strategy().map(lambda c: dict(c, steps=True) if c.get("kind") == "frames" else c)
+
+
 def parts(tier):
     if tier == "quick":
         return [Part("predicate-all-65536", "enum", _pred_all, exhaustive=True),
-                Part("short-frames", "enum", _short_frames, exhaustive=True),
-                Part("master-histories", "enum", _master_histories, exhaustive=True),
+                Part("short-frames", "enum", _steps(_short_frames), exhaustive=True),
+                Part("master-histories", "enum", _steps(_master_histories), exhaustive=True),
+                Part("master-request-from-every-address", "enum", _master_request_sweep, exhaustive=True),
                 Part("structured", "enum", _structured((0, 2, 24), range(0, 256)), exhaustive=True),
-                Part("generated", "gen", _strategy, n=3000),
+                Part("generated", "gen", _steps_strategy, n=3000),
                 Part("atheris", "fuzz", lambda: {"decoder": "vlib.checks.c15_robust:decode_bytes", "seconds": 15, "max_len": 140}, n=0)]
     return [Part("predicate-all-65536", "enum", _pred_all, exhaustive=True),
-            Part("short-frames", "enum", _short_frames, exhaustive=True),
-            Part("master-histories", "enum", _master_histories, exhaustive=True),
-            Part("structured", "enum", _structured(tuple(range(0, 25)), range(0, 256)), exhaustive=True),
-            Part("generated", "gen", _strategy, n=150000),
+            Part("short-frames", "enum", _steps(_short_frames), exhaustive=True),
+            Part("master-histories", "enum", _steps(_master_histories), exhaustive=True),
+            Part("master-request-from-every-address", "enum", _master_request_sweep, exhaustive=True),
+            Part("structured", "enum", _steps(_structured(tuple(range(0, 25)), range(0, 256))), exhaustive=True),
+            Part("generated", "gen", _steps_strategy, n=150000),
             Part("atheris", "fuzz", lambda: {"decoder": "vlib.checks.c15_robust:decode_bytes", "seconds": 600, "max_len": 140}, n=0)]
